@@ -71,7 +71,13 @@ def run_obligation(pkg, fn, hook=None, max_paths=256, allow_size_thresholds=Fals
                 raise
             finally:
                 CURRENT = None
-        paths = explore(pkg, runner, hook=hook, max_paths=max_paths)
+        try:
+            paths = explore(pkg, runner, hook=hook, max_paths=max_paths)
+            truncated = False
+        except Unsupported as e:
+            if getattr(e, "partial", None) is None:
+                raise
+            paths, truncated = e.partial, True
     except LossyOperation as e:
         return dict(status="violation", detail="non-exact operation in formula code: %s" % e, paths=0, stats={}, wall=time.time() - t0)
     except AnalysisError as e:
@@ -96,6 +102,9 @@ def run_obligation(pkg, fn, hook=None, max_paths=256, allow_size_thresholds=Fals
             (thin_fails if (p.thin and not simple) else fails).append(msg)
     if fails:
         return dict(status="violation", detail="; ".join(fails)[:4000], paths=len(paths), stats=stats, wall=time.time() - t0)
+    if truncated:
+        return dict(status="error", detail="more than %d paths (none of the explored ones fails)" % max_paths, paths=len(paths), stats=stats,
+                    wall=time.time() - t0)
     if thin_fails:
         # the identity fails only where an exact equality of symbolic values was assumed: a polynomial identity need not hold
         # on such a measure-zero set for the behaviour to be right there, so this is undecided, not a violation
